@@ -158,8 +158,10 @@ def sensorRead (st : Store) (prefixes : List Key) (mutableKeys : List Key) (name
 
 /-! ## chunk info: upgrade and alignment -/
 
-def ciInsert (ci : ChunkInfo) (k : Key) (v : ArrInfo) : ChunkInfo :=
-  if ci.any (·.1 == k) then ci.map (fun kv => if kv.1 == k then (k, v) else kv) else ci ++ [(k, v)]
+/-- `chunk_info[key] = value`: replace in place, or append a new key -/
+def ciInsert : ChunkInfo → Key → ArrInfo → ChunkInfo
+  | [], k, v => [(k, v)]
+  | (a, b) :: t, k, v => if a = k then (k, v) :: t else (a, b) :: ciInsert t k v
 
 /-- `_upgrade_chunk_info` -/
 def upgradeChunkInfo (ci improved : ChunkInfo) : Except Err ChunkInfo :=
